@@ -1,6 +1,7 @@
 //! Checks of the scion-stack path manager (C05, C06, C07) on a hand-stepped path set.
 use vmon::{Args, Mon};
 
+mod c14;
 mod histories;
 mod world;
 
@@ -8,6 +9,7 @@ fn main() {
     let args = Args::parse();
     let mut mon = Mon::new();
     let (rule, assumptions): (String, Vec<&'static str>) = match args.prop.as_str() {
+        "C14" => c14::run(&args, &mut mon),
         "C05" | "C06" | "C07" => histories::run(&args, &mut mon),
         other => panic!("chk-stack does not implement {other}"),
     };
